@@ -14,6 +14,9 @@ CONSTANTS
   OutCap = 4
   Eager = TRUE
   MaxCtlQ = 1
+  RstCodes = {8, 2}
+  Promised = {2}
+  Pings = {1}
   BugContES = FALSE
   BugPadCredit = TRUE
   EncodeAtEnqueue = FALSE
